@@ -843,6 +843,1108 @@ fn correspondence(st: &mut Stats, cw: &mut CaseWriter, rng: &mut Rng, thorough: 
     c.kernel_traps
 }
 
+
+// ------------------------------------------------------------------------------------------------
+// (b1) generated-bytecode search
+// ------------------------------------------------------------------------------------------------
+#[derive(Clone, Copy, PartialEq)]
+enum K {
+    V, // arbitrary value (extremes)
+    P, // point index
+    C, // cvt index
+    S, // storage index
+    Z, // zone 0/1
+    N, // small count
+    B, // selector byte
+}
+
+const OPS: &[(u8, &str, &[K])] = &[
+    (0x0A, "SPVFS", &[K::V, K::V]),
+    (0x0B, "SFVFS", &[K::V, K::V]),
+    (0x06, "SPVTL0", &[K::P, K::P]),
+    (0x07, "SPVTL1", &[K::P, K::P]),
+    (0x08, "SFVTL0", &[K::P, K::P]),
+    (0x09, "SFVTL1", &[K::P, K::P]),
+    (0x86, "SDPVTL0", &[K::P, K::P]),
+    (0x87, "SDPVTL1", &[K::P, K::P]),
+    (0x0F, "ISECT", &[K::P, K::P, K::P, K::P, K::P]),
+    (0x10, "SRP0", &[K::P]),
+    (0x11, "SRP1", &[K::P]),
+    (0x12, "SRP2", &[K::P]),
+    (0x17, "SLOOP", &[K::V]),
+    (0x1A, "SMD", &[K::V]),
+    (0x1D, "SCVTCI", &[K::V]),
+    (0x1E, "SSWCI", &[K::V]),
+    (0x1F, "SSW", &[K::V]),
+    (0x27, "ALIGNPTS", &[K::P, K::P]),
+    (0x29, "UTP", &[K::P]),
+    (0x2E, "MDAP0", &[K::P]),
+    (0x2F, "MDAP1", &[K::P]),
+    (0x30, "IUP0", &[]),
+    (0x31, "IUP1", &[]),
+    (0x32, "SHP0", &[K::P]),
+    (0x33, "SHP1", &[K::P]),
+    (0x34, "SHC0", &[K::N]),
+    (0x35, "SHC1", &[K::N]),
+    (0x36, "SHZ0", &[K::Z]),
+    (0x37, "SHZ1", &[K::Z]),
+    (0x38, "SHPIX", &[K::P, K::V]),
+    (0x39, "IP", &[K::P]),
+    (0x3A, "MSIRP0", &[K::P, K::V]),
+    (0x3B, "MSIRP1", &[K::P, K::V]),
+    (0x3C, "ALIGNRP", &[K::P]),
+    (0x3E, "MIAP0", &[K::P, K::C]),
+    (0x3F, "MIAP1", &[K::P, K::C]),
+    (0x42, "WS", &[K::S, K::V]),
+    (0x43, "RS", &[K::S]),
+    (0x44, "WCVTP", &[K::C, K::V]),
+    (0x45, "RCVT", &[K::C]),
+    (0x70, "WCVTF", &[K::C, K::V]),
+    (0x46, "GC0", &[K::P]),
+    (0x47, "GC1", &[K::P]),
+    (0x48, "SCFS", &[K::P, K::V]),
+    (0x49, "MD0", &[K::P, K::P]),
+    (0x4A, "MD1", &[K::P, K::P]),
+    (0x4B, "MPPEM", &[]),
+    (0x4C, "MPS", &[]),
+    (0x50, "LT", &[K::V, K::V]),
+    (0x52, "GT", &[K::V, K::V]),
+    (0x56, "ODD", &[K::V]),
+    (0x57, "EVEN", &[K::V]),
+    (0x5D, "DELTAP1", &[K::V, K::P, K::V, K::P, K::N]),
+    (0x71, "DELTAP2", &[K::V, K::P, K::N]),
+    (0x72, "DELTAP3", &[K::V, K::P, K::N]),
+    (0x73, "DELTAC1", &[K::V, K::C, K::V, K::C, K::N]),
+    (0x74, "DELTAC2", &[K::V, K::C, K::N]),
+    (0x75, "DELTAC3", &[K::V, K::C, K::N]),
+    (0x5E, "SDB", &[K::V]),
+    (0x5F, "SDS", &[K::N]),
+    (0x60, "ADD", &[K::V, K::V]),
+    (0x61, "SUB", &[K::V, K::V]),
+    (0x62, "DIV", &[K::V, K::V]),
+    (0x63, "MUL", &[K::V, K::V]),
+    (0x64, "ABS", &[K::V]),
+    (0x65, "NEG", &[K::V]),
+    (0x66, "FLOOR", &[K::V]),
+    (0x67, "CEILING", &[K::V]),
+    (0x68, "ROUND0", &[K::V]),
+    (0x69, "ROUND1", &[K::V]),
+    (0x6A, "ROUND2", &[K::V]),
+    (0x6C, "NROUND0", &[K::V]),
+    (0x6D, "NROUND1", &[K::V]),
+    (0x76, "SROUND", &[K::B]),
+    (0x77, "S45ROUND", &[K::B]),
+    (0x80, "FLIPPT", &[K::P]),
+    (0x81, "FLIPRGON", &[K::P, K::P]),
+    (0x82, "FLIPRGOFF", &[K::P, K::P]),
+    (0x85, "SCANCTRL", &[K::V]),
+    (0x8D, "SCANTYPE", &[K::V]),
+    (0x8E, "INSTCTRL", &[K::V, K::V]),
+    (0x88, "GETINFO", &[K::V]),
+    (0x8A, "ROLL", &[K::V, K::V, K::V]),
+    (0x8B, "MAX", &[K::V, K::V]),
+    (0x8C, "MIN", &[K::V, K::V]),
+    (0x91, "GETVARIATION", &[]),
+    (0x25, "CINDEX", &[K::V, K::V]),
+    (0x26, "MINDEX", &[K::V, K::V]),
+    (0x1C, "JMPR", &[K::V]),
+    (0x78, "JROT", &[K::V, K::V]),
+    (0x79, "JROF", &[K::V, K::V]),
+    (0x2A, "LOOPCALL", &[K::V, K::N]),
+    (0x2B, "CALL", &[K::V]),
+    (0xC0, "MDRP", &[K::P]),
+    (0xE0, "MIRP", &[K::P, K::V]),
+];
+
+const VEXT: &[i32] = &[
+    0, 1, -1, 2, 3, 31, 32, 33, 63, 64, 65, -64, 255, 256, 16384, -16384, 11585, 32767, -32768, 65536, -65536,
+    i32::MIN, i32::MIN + 1, i32::MIN + 63, i32::MAX, i32::MAX - 1, i32::MAX - 15, i32::MAX - 31, i32::MAX - 62, i32::MAX - 63,
+    1 << 25, -(1 << 25), 1 << 30, -(1 << 30), 0x7FFF0000, 0x40000000 - 1, 0x00FFFFFF,
+];
+
+fn pick_operand(rng: &mut Rng, k: K) -> i32 {
+    match k {
+        K::V => {
+            if rng.chance(5, 6) {
+                *rng.pick(VEXT)
+            } else {
+                rng.next_u32() as i32
+            }
+        }
+        K::P => {
+            if rng.chance(9, 10) {
+                rng.range(0, 7) as i32
+            } else {
+                *rng.pick(&[8, 9, 100, -1, i32::MAX, i32::MIN, 65535])
+            }
+        }
+        K::C => {
+            if rng.chance(9, 10) {
+                rng.range(0, 7) as i32
+            } else {
+                *rng.pick(&[8, 100, -1, i32::MAX, i32::MIN, -2])
+            }
+        }
+        K::S => {
+            if rng.chance(9, 10) {
+                rng.range(0, 7) as i32
+            } else {
+                *rng.pick(&[8, -1, i32::MAX, i32::MIN])
+            }
+        }
+        K::Z => {
+            if rng.chance(9, 10) {
+                rng.range(0, 1) as i32
+            } else {
+                *rng.pick(&[2, -1, i32::MAX, i32::MIN])
+            }
+        }
+        K::N => {
+            if rng.chance(9, 10) {
+                rng.range(0, 3) as i32
+            } else {
+                *rng.pick(&[6, 7, -1, i32::MAX, i32::MIN, 65535, 65536])
+            }
+        }
+        K::B => rng.range(0, 255) as i32,
+    }
+}
+
+/// one instruction with its operands, as bytes + text
+fn gen_instr(rng: &mut Rng, only: Option<usize>) -> (Vec<u8>, String) {
+    let (op, name, kinds) = OPS[only.unwrap_or_else(|| rng.below(OPS.len() as u64) as usize)];
+    let mut p = vec![];
+    let mut txt = String::new();
+    for k in kinds.iter() {
+        let v = pick_operand(rng, *k);
+        push_any(&mut p, v);
+        txt.push_str(&format!("{} ", v));
+    }
+    // MDRP / MIRP flag bits
+    let opc = if op == 0xC0 || op == 0xE0 { op + rng.range(0, 31) as u8 } else { op };
+    p.push(opc);
+    txt.push_str(&format!("{}[{:#04x}]", name, opc));
+    (p, txt)
+}
+
+/// state-setting prologue chunks
+fn gen_setup(rng: &mut Rng) -> Vec<(Vec<u8>, String)> {
+    let mut out: Vec<(Vec<u8>, String)> = vec![];
+    let mut one = |bytes: Vec<u8>, t: String| out.push((bytes, t));
+    if rng.chance(1, 2) {
+        let o = rng.range(0, 5) as u8;
+        one(vec![o], format!("SVTCA[{o}]"));
+    }
+    if rng.chance(1, 4) {
+        let mut p = vec![];
+        let (x, y) = (*rng.pick(&[0x4000i32, 0, 1, -0x4000, 11585, -11585, 0x7FFF, -0x8000, 3]), *rng.pick(&[0x4000i32, 0, 1, -0x4000, 11585, -11585, 0x7FFF, -0x8000, 3]));
+        push_any(&mut p, x);
+        push_any(&mut p, y);
+        let o = if rng.chance(1, 2) { 0x0A } else { 0x0B };
+        p.push(o);
+        one(p, format!("{x} {y} {}", if o == 0x0A { "SPVFS" } else { "SFVFS" }));
+    }
+    if rng.chance(1, 3) {
+        let z = rng.range(0, 1) as i32;
+        let o = 0x13 + rng.range(0, 3) as u8;
+        let mut p = vec![];
+        push_any(&mut p, z);
+        p.push(o);
+        one(p, format!("{z} SZP[{o:#04x}]"));
+    }
+    if rng.chance(1, 2) {
+        match rng.range(0, 7) {
+            0 => one(vec![0x18], "RTG".into()),
+            1 => one(vec![0x19], "RTHG".into()),
+            2 => one(vec![0x3D], "RTDG".into()),
+            3 => one(vec![0x7D], "RDTG".into()),
+            4 => one(vec![0x7C], "RUTG".into()),
+            5 => one(vec![0x7A], "ROFF".into()),
+            k => {
+                let sel = rng.range(0, 255) as i32;
+                let mut p = vec![];
+                push_any(&mut p, sel);
+                p.push(if k == 6 { 0x76 } else { 0x77 });
+                one(p, format!("{sel} {}", if k == 6 { "SROUND" } else { "S45ROUND" }));
+            }
+        }
+    }
+    for (o, n) in [(0x1Au8, "SMD"), (0x1D, "SCVTCI"), (0x1E, "SSWCI"), (0x1F, "SSW")] {
+        if rng.chance(1, 6) {
+            let v = pick_operand(rng, K::V);
+            let mut p = vec![];
+            push_any(&mut p, v);
+            p.push(o);
+            one(p, format!("{v} {n}"));
+        }
+    }
+    // place points / cvt at extreme values
+    let nmove = if rng.chance(1, 2) { rng.range(0, 3) } else { 0 };
+    for _ in 0..nmove {
+        let pt = rng.range(0, 4) as i32;
+        let v = pick_operand(rng, K::V);
+        let mut p = vec![];
+        push_any(&mut p, pt);
+        push_any(&mut p, v);
+        p.push(0x48);
+        one(p, format!("{pt} {v} SCFS"));
+    }
+    if rng.chance(1, 4) {
+        let c = rng.range(0, 4) as i32;
+        let v = pick_operand(rng, K::V);
+        let mut p = vec![];
+        push_any(&mut p, c);
+        push_any(&mut p, v);
+        p.push(0x44);
+        one(p, format!("{c} {v} WCVTP"));
+    }
+    for o in [0x10u8, 0x11, 0x12] {
+        if rng.chance(1, 5) {
+            let pt = rng.range(0, 4) as i32;
+            let mut p = vec![];
+            push_any(&mut p, pt);
+            p.push(o);
+            one(p, format!("{pt} SRP[{o:#04x}]"));
+        }
+    }
+    if rng.chance(1, 8) {
+        let n = rng.range(1, 3) as i32;
+        let mut p = vec![];
+        push_any(&mut p, n);
+        p.push(0x17);
+        one(p, format!("{n} SLOOP"));
+    }
+    if rng.chance(1, 8) {
+        one(vec![if rng.chance(1, 2) { 0x4D } else { 0x4E }], "FLIPON/OFF".into());
+    }
+    out
+}
+
+#[derive(Clone)]
+struct BcCase {
+    chunks: Vec<(Vec<u8>, String)>,
+    place: u8, // 0 glyph program, 1 prep, 2 fpgm, 3 composite program
+    pts: Vec<(i16, i16)>,
+    upem: u16,
+    ppem: f32,
+    target: u8,
+    pedantic: bool,
+    cvt: Vec<i16>,
+    comp_xform: [i16; 4],
+    comp_off: (i16, i16),
+}
+
+impl BcCase {
+    fn program(&self) -> Vec<u8> {
+        self.chunks.iter().flat_map(|(b, _)| b.iter().cloned()).collect()
+    }
+    fn spec(&self) -> TtSpec {
+        let mut s = TtSpec { upem: self.upem, pts: self.pts.clone(), cvt: self.cvt.clone(), comp_xform: self.comp_xform, comp_off: self.comp_off, ..Default::default() };
+        // function 0: a small body reached by CALL / LOOPCALL
+        let mut f = vec![];
+        pushw(&mut f, 0);
+        f.push(0x2C); // FDEF
+        f.push(0x20); // DUP
+        f.push(0x21); // POP
+        f.push(0x2D); // ENDF
+        match self.place {
+            0 => {
+                s.fpgm = f;
+                s.glyph_prog = self.program();
+            }
+            1 => {
+                s.fpgm = f;
+                s.prep = self.program();
+            }
+            2 => {
+                f.extend(self.program());
+                s.fpgm = f;
+            }
+            _ => {
+                s.fpgm = f;
+                s.comp_prog = self.program();
+            }
+        }
+        s
+    }
+    fn gid(&self) -> u32 {
+        if self.place == 3 {
+            1
+        } else {
+            0
+        }
+    }
+    fn run(&self) -> Result<(), Trap> {
+        let bytes = build_tt(&self.spec());
+        let (gid, ppem, target, ped) = (self.gid(), self.ppem, self.target, self.pedantic);
+        catch_loc(move || {
+            let _ = draw_hinted(&bytes, gid, ppem, target, ped);
+        })
+    }
+    fn describe(&self) -> serde_json::Value {
+        json!({
+            "kind": "truetype-bytecode",
+            "program_in": (["glyph 0 instructions", "prep", "fpgm", "composite glyph 1 instructions"][self.place as usize]),
+            "program": self.chunks.iter().map(|(_, t)| t.clone()).collect::<Vec<_>>().join(" ; "),
+            "program_hex": self.program().iter().map(|b| format!("{:02x}", b)).collect::<String>(),
+            "glyph0_points": self.pts, "unitsPerEm": self.upem, "ppem": self.ppem,
+            "target": format!("{:?}", target_of(self.target)), "pedantic": self.pedantic,
+            "cvt": self.cvt, "component_transform_f2dot14": self.comp_xform, "component_offset": [self.comp_off.0, self.comp_off.1],
+            "draw": format!("HintingInstance::new(Size::new({}), Engine::Interpreter) + draw glyph {}", self.ppem, self.gid()),
+        })
+    }
+}
+
+fn gen_bc_case(rng: &mut Rng, idx: u64) -> BcCase {
+    let mut chunks = vec![];
+    // the first pass over the op table is systematic: one instruction, no prologue
+    let systematic = (idx as usize) < OPS.len() * 40;
+    if !systematic || rng.chance(1, 3) {
+        chunks.extend(gen_setup(rng));
+    }
+    let only = if systematic { Some(idx as usize % OPS.len()) } else { None };
+    let n = if systematic || rng.chance(2, 3) { 1 } else { rng.range(2, 4) };
+    for k in 0..n {
+        chunks.push(gen_instr(rng, if k == 0 { only } else { None }));
+    }
+    let extreme_geom = rng.chance(1, 8);
+    let pts = if rng.chance(1, 5) {
+        (0..rng.range(1, 6)).map(|_| (*rng.pick(&[i16::MIN, i16::MAX, 0, -1, 1, 16384]), *rng.pick(&[i16::MIN, i16::MAX, 0, -1, 1, 16384]))).collect()
+    } else {
+        vec![(0, 0), (500, 0), (500, 700), (250, 900), (0, 700)]
+    };
+    let xf = |rng: &mut Rng| *rng.pick(&[0x4000i16, 0, i16::MIN, i16::MAX, -0x4000, 1]);
+    BcCase {
+        chunks,
+        place: if systematic { (idx as usize / OPS.len() % 4) as u8 } else { *rng.pick(&[0u8, 0, 0, 0, 1, 1, 2, 3]) },
+        pts,
+        upem: if extreme_geom { *rng.pick(&[16u16, 1, 0, 17, 16384, 65535, 1000]) } else { 1000 },
+        ppem: if extreme_geom { *rng.pick(&[1.0f32, 65535.0, 1.0e9, 0.0, 0.01, 33554432.0]) } else { *rng.pick(&[8.0f32, 16.0, 1000.0, 11.5]) },
+        target: rng.range(0, 3) as u8,
+        pedantic: rng.chance(1, 3),
+        cvt: if rng.chance(1, 4) { (0..8).map(|_| *rng.pick(&[i16::MIN, i16::MAX, 0, 1, -1])).collect() } else { vec![0, 100, -100, 700, 32767, -32768, 1, -1] },
+        comp_xform: if rng.chance(1, 4) { [xf(rng), xf(rng), xf(rng), xf(rng)] } else { [0x4000, 0, 0, 0x4000] },
+        comp_off: if rng.chance(1, 4) { (*rng.pick(&[i16::MIN, i16::MAX, 0]), *rng.pick(&[i16::MIN, i16::MAX, 0])) } else { (0, 0) },
+    }
+}
+
+/// greedy reduction: drop prologue chunks / reset geometry while the same site still traps
+fn reduce_bc(c: &BcCase, key: &str) -> BcCase {
+    let same = |c: &BcCase| matches!(c.run(), Err(t) if site_key(&t) == key);
+    let mut cur = c.clone();
+    let mut changed = true;
+    while changed {
+        changed = false;
+        let mut i = 0;
+        while i < cur.chunks.len() && cur.chunks.len() > 1 {
+            let mut t = cur.clone();
+            t.chunks.remove(i);
+            if same(&t) {
+                cur = t;
+                changed = true;
+            } else {
+                i += 1;
+            }
+        }
+    }
+    let d = TtSpec::default();
+    let tries: Vec<Box<dyn Fn(&mut BcCase)>> = vec![
+        Box::new(|t| t.pts = vec![(0, 0), (500, 0), (500, 700), (250, 900), (0, 700)]),
+        Box::new(|t| t.upem = 1000),
+        Box::new(|t| t.ppem = 16.0),
+        Box::new(move |t| t.cvt = d.cvt.clone()),
+        Box::new(|t| t.comp_xform = [0x4000, 0, 0, 0x4000]),
+        Box::new(|t| t.comp_off = (0, 0)),
+        Box::new(|t| t.pedantic = false),
+        Box::new(|t| t.target = 0),
+        Box::new(|t| t.place = 0),
+    ];
+    for f in tries {
+        let mut t = cur.clone();
+        f(&mut t);
+        if same(&t) {
+            cur = t;
+        }
+    }
+    cur
+}
+
+fn site_key(t: &Trap) -> String {
+    format!("{}:{}", t.loc, t.msg)
+}
+
+// ------------------------------------------------------------------------------------------------
+// (b2) value-extreme field mutations of the test fonts + API battery
+// ------------------------------------------------------------------------------------------------
+fn table_dir(b: &[u8]) -> Vec<([u8; 4], usize, usize)> {
+    let mut v = vec![];
+    if b.len() < 12 {
+        return v;
+    }
+    let n = u16::from_be_bytes([b[4], b[5]]) as usize;
+    for i in 0..n {
+        let r = 12 + 16 * i;
+        if r + 16 > b.len() {
+            break;
+        }
+        let tag = [b[r], b[r + 1], b[r + 2], b[r + 3]];
+        let off = u32::from_be_bytes([b[r + 8], b[r + 9], b[r + 10], b[r + 11]]) as usize;
+        let len = u32::from_be_bytes([b[r + 12], b[r + 13], b[r + 14], b[r + 15]]) as usize;
+        if off <= b.len() && len <= b.len() - off {
+            v.push((tag, off, len));
+        }
+    }
+    v
+}
+
+const E16: &[u16] = &[0, 1, 2, 0x7FFF, 0x8000, 0x8001, 0xFFFF, 0xFFFE, 0x4000, 0xC000, 16, 15, 17];
+const E32: &[u32] = &[0, 1, 0x7FFFFFFF, 0x80000000, 0x80000001, 0xFFFFFFFF, 0x00010000, 0xFFFF0000, 0x7FFF0000, 0x00FFFFFF];
+
+#[derive(Clone)]
+struct Mutation {
+    font: usize,
+    edits: Vec<(String, usize, Vec<u8>)>, // (table tag + rel offset text, abs offset, bytes)
+}
+
+fn gen_mutation(rng: &mut Rng, fonts: &[(&'static str, Vec<u8>)]) -> Mutation {
+    let fi = rng.below(fonts.len() as u64) as usize;
+    let b = &fonts[fi].1;
+    let dir = table_dir(b);
+    let mut edits = vec![];
+    let find = |t: &[u8; 4]| dir.iter().find(|(tag, _, _)| tag == t).cloned();
+    // targeted fields
+    if rng.chance(1, 3) {
+        if let Some((_, off, len)) = find(b"head") {
+            if len >= 54 {
+                let v = *rng.pick(&[0u16, 1, 15, 16, 17, 64, 16384, 16385, 32768, 65535]);
+                edits.push(("head+18 unitsPerEm".to_string(), off + 18, v.to_be_bytes().to_vec()));
+            }
+        }
+    }
+    if rng.chance(1, 6) {
+        if let Some((_, off, len)) = find(b"fvar") {
+            // first axis record: min / default / max
+            if len >= 16 + 20 {
+                let ao = u16::from_be_bytes([b[off + 4], b[off + 5]]) as usize;
+                if ao + 20 <= len {
+                    for k in 0..3 {
+                        if rng.chance(2, 3) {
+                            let v = *rng.pick(E32);
+                            edits.push((format!("fvar+{} axis0.{}", ao + 4 + 4 * k, ["min", "default", "max"][k]), off + ao + 4 + 4 * k, v.to_be_bytes().to_vec()));
+                        }
+                    }
+                }
+            }
+        }
+    }
+    if rng.chance(1, 6) {
+        if let Some((_, off, len)) = find(b"cvt ") {
+            for k in 0..len / 2 {
+                if rng.chance(1, 2) {
+                    let v = *rng.pick(&[0x7FFFu16, 0x8000]);
+                    edits.push((format!("cvt +{}", 2 * k), off + 2 * k, v.to_be_bytes().to_vec()));
+                }
+            }
+        }
+    }
+    // generic pokes in the tables that feed arithmetic
+    const TABS: &[&[u8; 4]] = &[b"head", b"hhea", b"OS/2", b"hmtx", b"glyf", b"glyf", b"glyf", b"loca", b"maxp", b"cvt ", b"fvar", b"avar", b"gvar", b"gvar", b"HVAR", b"MVAR", b"cvar", b"COLR", b"COLR", b"COLR", b"CPAL", b"post", b"cmap", b"cmap", b"CFF ", b"CFF2", b"GDEF", b"GSUB", b"GPOS", b"vhea", b"vmtx", b"VORG", b"VVAR", b"hdmx", b"EBLC", b"CBLC", b"sbix", b"prep", b"fpgm", b"name", b"STAT", b"kern"];
+    let n = if edits.is_empty() { rng.range(1, 4) } else { rng.range(0, 2) };
+    for _ in 0..n {
+        let mut tries = 0;
+        loop {
+            tries += 1;
+            if tries > 20 {
+                break;
+            }
+            let t = *rng.pick(TABS);
+            if let Some((tag, off, len)) = find(t) {
+                if len < 4 {
+                    continue;
+                }
+                let w = *rng.pick(&[1usize, 2, 2, 2, 2, 4]);
+                let rel = (rng.below((len - w + 1) as u64) as usize) & !(if w >= 2 && rng.chance(7, 8) { 1 } else { 0 });
+                let bytes = match w {
+                    1 => vec![*rng.pick(&[0u8, 1, 0x7F, 0x80, 0xFF])],
+                    2 => rng.pick(E16).to_be_bytes().to_vec(),
+                    _ => rng.pick(E32).to_be_bytes().to_vec(),
+                };
+                edits.push((format!("{}+{}", String::from_utf8_lossy(&tag), rel), off + rel, bytes));
+                break;
+            }
+        }
+    }
+    Mutation { font: fi, edits }
+}
+
+fn apply_mutation(fonts: &[(&'static str, Vec<u8>)], m: &Mutation) -> Vec<u8> {
+    let mut b = fonts[m.font].1.clone();
+    for (_, off, bytes) in &m.edits {
+        if off + bytes.len() <= b.len() {
+            b[*off..off + bytes.len()].copy_from_slice(bytes);
+        }
+    }
+    b
+}
+
+struct NopPen;
+impl OutlinePen for NopPen {
+    fn move_to(&mut self, _: f32, _: f32) {}
+    fn line_to(&mut self, _: f32, _: f32) {}
+    fn quad_to(&mut self, _: f32, _: f32, _: f32, _: f32) {}
+    fn curve_to(&mut self, _: f32, _: f32, _: f32, _: f32, _: f32, _: f32) {}
+    fn close(&mut self) {}
+}
+
+struct NopPainter;
+impl skrifa::color::ColorPainter for NopPainter {
+    fn push_transform(&mut self, _: skrifa::color::Transform) {}
+    fn pop_transform(&mut self) {}
+    fn push_clip_glyph(&mut self, _: GlyphId) {}
+    fn push_clip_box(&mut self, _: read_fonts::types::BoundingBox<f32>) {}
+    fn pop_clip(&mut self) {}
+    fn fill(&mut self, _: skrifa::color::Brush<'_>) {}
+    fn push_layer(&mut self, _: skrifa::color::CompositeMode) {}
+    fn pop_layer(&mut self) {}
+}
+
+const API_NAMES: &[&str] = &[
+    "metrics", "glyph_metrics", "charmap", "draw_unhinted", "draw_hinted_interpreter", "draw_autohint", "color_paint",
+    "names_attrs", "klippa_subset", "ift_select", "draw_harfbuzz_style", "bitmap_tables",
+];
+
+/// Runs API number `api` on the font bytes; all randomness from (sel).
+fn run_api(bytes: &[u8], api: usize, sel: u64) -> Result<(), Trap> {
+    let bytes = bytes.to_vec();
+    catch_loc(move || {
+        let mut rng = Rng::new(sel);
+        let Ok(font) = FontRef::new(&bytes) else { return };
+        let ng = font.maxp().map(|m| m.num_glyphs()).unwrap_or(0) as u32;
+        let gids: Vec<u32> = {
+            let mut v = vec![0u32, 1, 2, 3];
+            for _ in 0..4 {
+                v.push(rng.below(ng.max(1) as u64) as u32);
+            }
+            v.push(ng.saturating_sub(1));
+            v.push(ng);
+            v.push(65535);
+            v
+        };
+        let sizes = [Size::unscaled(), Size::new(16.0), Size::new(1.0), Size::new(65535.0), Size::new(1.0e9), Size::new(0.0), Size::new(11.3)];
+        let size = sizes[rng.below(sizes.len() as u64) as usize];
+        let axes = font.axes();
+        let loc = {
+            let vals = [f32::MIN, -1.0e9, -40000.0, -1.0, 0.0, 1.0, 100.0, 400.0, 900.0, 40000.0, 1.0e9, f32::MAX, f32::NAN, f32::INFINITY];
+            let settings: Vec<(skrifa::Tag, f32)> = axes.iter().map(|a| (a.tag(), if rng.chance(1, 3) { a.default_value() } else { vals[rng.below(vals.len() as u64) as usize] })).collect();
+            axes.location(settings)
+        };
+        let use_loc = rng.chance(2, 3);
+        let lref = if use_loc { LocationRef::from(&loc) } else { LocationRef::default() };
+        match api {
+            0 => {
+                for s in sizes {
+                    let m = font.metrics(s, lref);
+                    let _ = (m.ascent, m.underline, m.bounds);
+                }
+            }
+            1 => {
+                let gm = font.glyph_metrics(size, lref);
+                for g in &gids {
+                    let _ = gm.advance_width(GlyphId::new(*g));
+                    let _ = gm.left_side_bearing(GlyphId::new(*g));
+                    let _ = gm.bounds(GlyphId::new(*g));
+                }
+            }
+            2 => {
+                let cm = font.charmap();
+                for (i, _) in cm.mappings().enumerate() {
+                    if i > 3000 {
+                        break;
+                    }
+                }
+                for (i, _) in cm.variant_mappings().enumerate() {
+                    if i > 3000 {
+                        break;
+                    }
+                }
+                for c in [0u32, 0x20, 0x41, 0xFFFF, 0x10000, 0x10FFFF, 0xE000, 0x4E00] {
+                    let _ = cm.map(c);
+                    let _ = cm.map_variant(c, 0xFE00u32);
+                }
+            }
+            3 | 10 => {
+                let o = font.outline_glyphs();
+                for g in &gids {
+                    if let Some(gl) = o.get(GlyphId::new(*g)) {
+                        let mut st = DrawSettings::unhinted(size, lref);
+                        if api == 10 {
+                            st = st.with_path_style(skrifa::outline::pen::PathStyle::HarfBuzz);
+                        }
+                        let _ = gl.draw(st, &mut NopPen);
+                    }
+                }
+            }
+            4 => {
+                let o = font.outline_glyphs();
+                let opts = HintingOptions { engine: Engine::Interpreter, target: target_of(rng.range(0, 3) as u8) };
+                if let Ok(inst) = HintingInstance::new(&o, size, lref, opts) {
+                    let ped = rng.chance(1, 3);
+                    for g in &gids {
+                        if let Some(gl) = o.get(GlyphId::new(*g)) {
+                            let _ = gl.draw(DrawSettings::hinted(&inst, ped), &mut NopPen);
+                        }
+                    }
+                }
+            }
+            5 => {
+                let o = font.outline_glyphs();
+                let opts = HintingOptions { engine: Engine::Auto(None), target: target_of(rng.range(0, 3) as u8) };
+                if let Ok(inst) = HintingInstance::new(&o, size, lref, opts) {
+                    for g in &gids {
+                        if let Some(gl) = o.get(GlyphId::new(*g)) {
+                            let _ = gl.draw(DrawSettings::hinted(&inst, false), &mut NopPen);
+                        }
+                    }
+                }
+            }
+            6 => {
+                let cg = font.color_glyphs();
+                for g in gids.iter().chain([4u32, 5, 6, 7, 8, 9, 10, 20, 50, 100, 150].iter()) {
+                    if let Some(gl) = cg.get(GlyphId::new(*g)) {
+                        let _ = gl.bounding_box(lref, size);
+                        let _ = gl.paint(lref, &mut NopPainter);
+                    }
+                }
+            }
+            7 => {
+                let _ = font.attributes();
+                for ni in font.named_instances().iter() {
+                    let _ = ni.location();
+                    let _ = ni.user_coords().count();
+                }
+                for id in [1u16, 2, 4, 6, 256, 65535] {
+                    for s in font.localized_strings(skrifa::string::StringId::new(id)) {
+                        let _ = s.chars().count();
+                    }
+                }
+                let gn = font.glyph_names();
+                for g in &gids {
+                    let _ = gn.get(GlyphId::new(*g));
+                }
+                for a in axes.iter() {
+                    for v in [f32::MIN, -1.0, 0.0, 1.0, f32::MAX] {
+                        let _ = a.normalize(v);
+                    }
+                }
+            }
+            8 => {
+                use klippa::{subset_font, Plan, SubsetFlags};
+                use read_fonts::collections::IntSet;
+                let mut g = IntSet::<GlyphId>::empty();
+                for x in &gids {
+                    g.insert(GlyphId::new(*x));
+                }
+                let mut unis = IntSet::<u32>::empty();
+                if rng.chance(1, 2) {
+                    unis.insert_range(0x20..=0x7E);
+                    unis.insert(0x4E00);
+                }
+                let mut drop = IntSet::<skrifa::Tag>::empty();
+                for t in [b"morx", b"kern", b"DSIG", b"EBDT", b"EBLC"] {
+                    drop.insert(skrifa::Tag::new(t));
+                }
+                let mut scripts = IntSet::<skrifa::Tag>::empty();
+                scripts.invert();
+                let mut feats = IntSet::<skrifa::Tag>::empty();
+                feats.extend(klippa::DEFAULT_LAYOUT_FEATURES.iter().copied());
+                let mut name_ids = IntSet::<read_fonts::types::NameId>::empty();
+                name_ids.insert_range(read_fonts::types::NameId::from(0)..=read_fonts::types::NameId::from(6));
+                let mut langs = IntSet::<u16>::empty();
+                langs.insert(0x0409);
+                let flags = *rng.pick(&[0u16, 1, 2, 0x10, 0x200, 0x3FF]);
+                let plan = Plan::new(&g, &unis, &font, SubsetFlags::from(flags), &drop, &scripts, &feats, &name_ids, &langs);
+                let _ = subset_font(&font, &plan);
+            }
+            9 => {
+                use incremental_font_transfer::patch_group::PatchGroup;
+                use incremental_font_transfer::patchmap::{intersecting_patches, SubsetDefinition};
+                use read_fonts::collections::IntSet;
+                let d = if rng.chance(1, 2) {
+                    SubsetDefinition::all()
+                } else {
+                    let mut cps = IntSet::<u32>::empty();
+                    cps.insert_range(0..=0x100);
+                    cps.insert(0x10FFFF);
+                    SubsetDefinition::codepoints(cps)
+                };
+                let _ = intersecting_patches(&font, &d);
+                let _ = PatchGroup::select_next_patches(font.clone(), &d).map(|g| g.uris().count());
+            }
+            _ => {
+                if let Ok(t) = font.hdmx() {
+                    let _ = t.record_for_size(16);
+                }
+                if let Ok(t) = font.vorg() {
+                    for g in &gids {
+                        let _ = t.vertical_origin_y(GlyphId::new(*g));
+                    }
+                }
+                if let Ok(t) = font.post() {
+                    for g in &gids {
+                        let _ = t.glyph_name(read_fonts::types::GlyphId16::new(*g as u16));
+                    }
+                }
+                if let (Ok(hvar), true) = (font.hvar(), true) {
+                    for g in &gids {
+                        let _ = hvar.advance_width_delta(GlyphId::new(*g), loc.coords());
+                        let _ = hvar.lsb_delta(GlyphId::new(*g), loc.coords());
+                    }
+                }
+            }
+        }
+    })
+}
+
+fn load_fonts() -> Vec<(&'static str, Vec<u8>)> {
+    use font_test_data as d;
+    let mut v: Vec<(&'static str, Vec<u8>)> = vec![
+        ("SIMPLE_GLYF", d::SIMPLE_GLYF.to_vec()),
+        ("VAZIRMATN_VAR", d::VAZIRMATN_VAR.to_vec()),
+        ("CANTARELL_VF_TRIMMED", d::CANTARELL_VF_TRIMMED.to_vec()),
+        ("NOTO_SERIF_DISPLAY_TRIMMED", d::NOTO_SERIF_DISPLAY_TRIMMED.to_vec()),
+        ("COLRV0V1", d::COLRV0V1.to_vec()),
+        ("COLRV0V1_VARIABLE", d::COLRV0V1_VARIABLE.to_vec()),
+        ("COLRV1_NO_CLIPLIST", d::COLRV1_NO_CLIPLIST.to_vec()),
+        ("COLR_GRADIENT_RECT", d::COLR_GRADIENT_RECT.to_vec()),
+        ("CVAR", d::CVAR.to_vec()),
+        ("GLYF_COMPONENTS", d::GLYF_COMPONENTS.to_vec()),
+        ("TTHINT_SUBSET", d::TTHINT_SUBSET.to_vec()),
+        ("TINOS_SUBSET", d::TINOS_SUBSET.to_vec()),
+        ("AHEM", d::AHEM.to_vec()),
+        ("AVAR2_CHECKER", d::AVAR2_CHECKER.to_vec()),
+        ("MATERIAL_SYMBOLS_SUBSET", d::MATERIAL_SYMBOLS_SUBSET.to_vec()),
+        ("MATERIAL_ICONS_SUBSET", d::MATERIAL_ICONS_SUBSET.to_vec()),
+        ("NOTOSERIFHEBREW_AUTOHINT_METRICS", d::NOTOSERIFHEBREW_AUTOHINT_METRICS.to_vec()),
+        ("NOTOSERIF_AUTOHINT_SHAPING", d::NOTOSERIF_AUTOHINT_SHAPING.to_vec()),
+        ("AUTOHINT_CMAP", d::AUTOHINT_CMAP.to_vec()),
+        ("STARTING_OFF_CURVE", d::STARTING_OFF_CURVE.to_vec()),
+        ("MOSTLY_OFF_CURVE", d::MOSTLY_OFF_CURVE.to_vec()),
+        ("INTERPOLATE_THIS", d::INTERPOLATE_THIS.to_vec()),
+        ("CUBIC_GLYF", d::CUBIC_GLYF.to_vec()),
+        ("HVAR_WITH_TRUNCATED_ADVANCE_INDEX_MAP", d::HVAR_WITH_TRUNCATED_ADVANCE_INDEX_MAP.to_vec()),
+        ("VORG", d::VORG.to_vec()),
+        ("CMAP12_FONT1", d::CMAP12_FONT1.to_vec()),
+        ("CMAP14_FONT1", d::CMAP14_FONT1.to_vec()),
+        ("CMAP4_SYMBOL_PUA", d::CMAP4_SYMBOL_PUA.to_vec()),
+        ("EMBEDDED_BITMAPS", d::EMBEDDED_BITMAPS.to_vec()),
+        ("CBDT", d::CBDT.to_vec()),
+        ("CHARSTRING_PATH_OPS", d::CHARSTRING_PATH_OPS.to_vec()),
+    ];
+    // IFT-carrying fonts: SIMPLE_GLYF + an `IFT ` / `IFTX` table from font-test-data's builders
+    let base = FontRef::new(d::SIMPLE_GLYF).unwrap();
+    for (name, ift) in [
+        ("IFT:simple_format1", d::ift::simple_format1()),
+        ("IFT:u16_entries_format1", d::ift::u16_entries_format1()),
+        ("IFT:feature_map_format1", d::ift::feature_map_format1()),
+        ("IFT:codepoints_only_format2", d::ift::codepoints_only_format2()),
+        ("IFT:features_and_design_space_format2", d::ift::features_and_design_space_format2()),
+        ("IFT:child_indices_format2", d::ift::child_indices_format2()),
+        ("IFT:custom_ids_format2", d::ift::custom_ids_format2()),
+        ("IFT:string_ids_format2", d::ift::string_ids_format2()),
+        ("IFT:table_keyed_format2", d::ift::table_keyed_format2()),
+    ] {
+        let mut tabs: Vec<([u8; 4], Vec<u8>)> = vec![];
+        for (tag, off, len) in table_dir(d::SIMPLE_GLYF) {
+            tabs.push((tag, d::SIMPLE_GLYF[off..off + len].to_vec()));
+        }
+        let _ = &base;
+        tabs.push((*b"IFT ", ift.as_slice().to_vec()));
+        let refs: Vec<(&[u8; 4], Vec<u8>)> = tabs.iter().map(|(t, b)| (t, b.clone())).collect();
+        v.push((name, sfnt(&refs)));
+    }
+    v
+}
+
+#[derive(Clone)]
+struct Found {
+    idx: u64,
+    trap: Trap,
+    kind: Kind,
+    input: serde_json::Value,
+    bc: Option<BcCase>,
+}
+
+fn search(seed: u64, thorough: bool, st: &mut Stats) -> BTreeMap<String, Found> {
+    let fonts = load_fonts();
+    let n_bc: u64 = if thorough { 6_000_000 } else { 700_000 };
+    let n_mut: u64 = if thorough { 400_000 } else { 40_000 };
+    let threads = 16u64;
+    let fonts_ref = &fonts;
+    let mut results: Vec<(BTreeMap<String, Found>, BTreeMap<String, u64>)> = vec![];
+    std::thread::scope(|sc| {
+        let mut hs = vec![];
+        for t in 0..threads {
+            hs.push(sc.spawn(move || {
+                let mut found: BTreeMap<String, Found> = BTreeMap::new();
+                let mut counts: BTreeMap<String, u64> = BTreeMap::new();
+                let mut note = |found: &mut BTreeMap<String, Found>, counts: &mut BTreeMap<String, u64>, idx: u64, trap: Trap, input: &dyn Fn() -> serde_json::Value, bc: Option<&BcCase>| {
+                    let kind = classify(&trap.msg);
+                    *counts.entry(format!("panic.{:?}", kind)).or_insert(0) += 1;
+                    let key = site_key(&trap);
+                    let e = found.get(&key);
+                    if e.map(|f| idx < f.idx).unwrap_or(true) {
+                        found.insert(key, Found { idx, trap, kind, input: input(), bc: bc.cloned() });
+                    }
+                };
+                // bytecode cases
+                let mut i = t;
+                while i < n_bc {
+                    let mut rng = Rng::new(seed ^ i.wrapping_mul(0x9E3779B97F4A7C15) ^ 0xB1);
+                    let c = gen_bc_case(&mut rng, i);
+                    *counts.entry(format!("bc.place{}", c.place)).or_insert(0) += 1;
+                    if let Err(trap) = c.run() {
+                        note(&mut found, &mut counts, i, trap, &|| c.describe(), Some(&c));
+                    }
+                    i += threads;
+                }
+                // field mutations
+                let mut i = t;
+                while i < n_mut {
+                    let mut rng = Rng::new(seed ^ i.wrapping_mul(0x9E3779B97F4A7C15) ^ 0xF0F0);
+                    let m = gen_mutation(&mut rng, fonts_ref);
+                    let bytes = apply_mutation(fonts_ref, &m);
+                    *counts.entry(format!("mut.font.{}", fonts_ref[m.font].0)).or_insert(0) += 1;
+                    for api in 0..API_NAMES.len() {
+                        // IFT selection only for IFT fonts; klippa on a quarter of the cases
+                        if api == 9 && !fonts_ref[m.font].0.starts_with("IFT:") {
+                            continue;
+                        }
+                        if api == 8 && i % 4 != 0 {
+                            continue;
+                        }
+                        let sel = seed ^ i.wrapping_mul(31) ^ api as u64;
+                        *counts.entry(format!("mut.api.{}", API_NAMES[api])).or_insert(0) += 1;
+                        if let Err(trap) = run_api(&bytes, api, sel) {
+                            let fname = fonts_ref[m.font].0;
+                            let edits: Vec<serde_json::Value> = m.edits.iter().map(|(w, _, b)| json!({"at": w, "bytes_hex": b.iter().map(|x| format!("{:02x}", x)).collect::<String>()})).collect();
+                            note(&mut found, &mut counts, (1 << 40) + i, trap, &|| json!({"kind": "field-mutation", "font": fname, "edits": edits, "api": API_NAMES[api], "api_selector": sel}), None);
+                        }
+                    }
+                    i += threads;
+                }
+                (found, counts)
+            }));
+        }
+        for h in hs {
+            results.push(h.join().unwrap());
+        }
+    });
+    let mut all: BTreeMap<String, Found> = BTreeMap::new();
+    for (found, counts) in results {
+        for (k, v) in counts {
+            st.add(&k, v);
+        }
+        for (k, f) in found {
+            if all.get(&k).map(|g| f.idx < g.idx).unwrap_or(true) {
+                all.insert(k, f);
+            }
+        }
+    }
+    st.evaluations += n_bc + n_mut;
+    all
+}
+
+// ------------------------------------------------------------------------------------------------
+// (c) lexical census of arithmetic expressions in the anchored files
+// ------------------------------------------------------------------------------------------------
+fn strip_code(src: &str) -> String {
+    // remove comments, string/char literals; cut the trailing `#[cfg(test)] mod tests`
+    let src = match src.find("#[cfg(test)]\nmod ") {
+        Some(i) => &src[..i],
+        None => src,
+    };
+    let b: Vec<char> = src.chars().collect();
+    let mut out = String::with_capacity(b.len());
+    let mut i = 0;
+    while i < b.len() {
+        if b[i] == '/' && i + 1 < b.len() && b[i + 1] == '/' {
+            while i < b.len() && b[i] != '\n' {
+                i += 1;
+            }
+        } else if b[i] == '/' && i + 1 < b.len() && b[i + 1] == '*' {
+            i += 2;
+            while i + 1 < b.len() && !(b[i] == '*' && b[i + 1] == '/') {
+                i += 1;
+            }
+            i += 2;
+        } else if b[i] == '"' {
+            i += 1;
+            while i < b.len() && b[i] != '"' {
+                if b[i] == '\\' {
+                    i += 1;
+                }
+                i += 1;
+            }
+            i += 1;
+            out.push_str("\"\"");
+        } else if b[i] == '\'' && i + 2 < b.len() && (b[i + 2] == '\'' || (b[i + 1] == '\\' && i + 3 < b.len() && b[i + 3] == '\'')) {
+            i += if b[i + 1] == '\\' { 4 } else { 3 };
+            out.push('0');
+        } else {
+            out.push(b[i]);
+            i += 1;
+        }
+    }
+    out
+}
+
+#[derive(Default, Clone)]
+struct Census {
+    files: u64,
+    binary_checked: u64, // + - * << (and compound forms) with a non-literal operand
+    unary_neg: u64,
+    abs_calls: u64,
+    explicit: u64, // wrapping_/saturating_/checked_/overflowing_ calls
+    float_lines_skipped: u64,
+}
+
+fn census_file(src: &str, c: &mut Census) {
+    let code = strip_code(src);
+    c.files += 1;
+    for line in code.lines() {
+        let l = line.trim();
+        if l.is_empty() || l.starts_with("#[") || l.starts_with("use ") || l.starts_with("pub use ") {
+            continue;
+        }
+        c.explicit += ["wrapping_", "saturating_", "checked_", "overflowing_"].iter().map(|p| l.matches(p).count() as u64).sum::<u64>();
+        c.abs_calls += l.matches(".abs()").count() as u64;
+        let floaty = l.contains("f32") || l.contains("f64") || l.contains(".0 ") || l.contains("as f") || l.contains("_f32") ;
+        let ch: Vec<char> = l.chars().collect();
+        let is_ident = |x: char| x.is_alphanumeric() || x == '_' || x == ')' || x == ']' || x == '?';
+        let mut k = 0;
+        let mut n_bin = 0u64;
+        let mut n_neg = 0u64;
+        while k < ch.len() {
+            let c0 = ch[k];
+            let next = ch.get(k + 1).copied().unwrap_or(' ');
+            let prev_nonspace = ch[..k].iter().rev().find(|x| !x.is_whitespace()).copied();
+            match c0 {
+                '+' | '*' | '-' => {
+                    if c0 == '-' && next == '>' {
+                        k += 2;
+                        continue;
+                    }
+                    if c0 == '*' && !prev_nonspace.map(is_ident).unwrap_or(false) {
+                        k += 1; // deref / pointer / glob
+                        continue;
+                    }
+                    if c0 == '+' && (l.contains("impl ") || l.contains("where") || l.contains("dyn ") || l.starts_with('+') || l.contains(": ") && l.contains('\'')) && !l.contains('=') {
+                        k += 1; // trait bound
+                        continue;
+                    }
+                    let binary = prev_nonspace.map(is_ident).unwrap_or(false);
+                    if binary {
+                        // operands: literal-only on both sides?
+                        let left: String = ch[..k].iter().rev().skip_while(|x| x.is_whitespace()).take_while(|x| x.is_alphanumeric() || **x == '_' || **x == '.').collect();
+                        let right: String = ch[k + 1..].iter().skip_while(|x| x.is_whitespace() || **x == '=').take_while(|x| x.is_alphanumeric() || **x == '_' || **x == '.').collect();
+                        let lit = |s: &str| !s.is_empty() && s.chars().next().map(|c| c.is_ascii_digit()).unwrap_or(false) || s.chars().rev().next().map(|c| c.is_ascii_digit()).unwrap_or(false) && s.chars().all(|c| c.is_ascii_hexdigit() || c == 'x' || c == '_');
+                        let left_rev: String = left.chars().rev().collect();
+                        if !(lit(&left_rev) && lit(&right)) {
+                            n_bin += 1;
+                        }
+                    } else if c0 == '-' && (next.is_alphabetic() || next == '(' || next == '_') {
+                        n_neg += 1;
+                    }
+                    k += 1;
+                }
+                '<' if next == '<' => {
+                    n_bin += 1;
+                    k += 2;
+                }
+                _ => k += 1,
+            }
+        }
+        if floaty {
+            c.float_lines_skipped += (n_bin + n_neg > 0) as u64;
+        } else {
+            c.binary_checked += n_bin;
+            c.unary_neg += n_neg;
+        }
+    }
+}
+
+fn walk(dir: &std::path::Path, out: &mut Vec<std::path::PathBuf>) {
+    if let Ok(rd) = std::fs::read_dir(dir) {
+        let mut es: Vec<_> = rd.flatten().map(|e| e.path()).collect();
+        es.sort();
+        for p in es {
+            if p.is_dir() {
+                walk(&p, out);
+            } else if p.extension().map(|e| e == "rs").unwrap_or(false) {
+                out.push(p);
+            }
+        }
+    }
+}
+
+fn census() -> serde_json::Value {
+    let groups: &[(&str, &[&str])] = &[
+        ("font-types/src/fixed.rs", &["/repo/font-types/src/fixed.rs"]),
+        ("read-fonts/src", &["/repo/read-fonts/src"]),
+        ("skrifa/src/outline/glyf/hint", &["/repo/skrifa/src/outline/glyf/hint"]),
+        ("skrifa/src/outline (rest)", &["/repo/skrifa/src/outline"]),
+        ("skrifa/src/color", &["/repo/skrifa/src/color"]),
+        ("skrifa/src/metrics.rs", &["/repo/skrifa/src/metrics.rs"]),
+        ("incremental-font-transfer/src", &["/repo/incremental-font-transfer/src"]),
+    ];
+    let mut per = serde_json::Map::new();
+    let mut tot = Census::default();
+    for (name, roots) in groups {
+        let mut c = Census::default();
+        for r in *roots {
+            let p = std::path::Path::new(r);
+            let mut files = vec![];
+            if p.is_dir() {
+                walk(p, &mut files);
+            } else {
+                files.push(p.to_path_buf());
+            }
+            for f in files {
+                let fs = f.to_string_lossy().to_string();
+                if *name == "skrifa/src/outline (rest)" && fs.contains("/glyf/hint/") {
+                    continue;
+                }
+                if fs.ends_with("/tests.rs") || fs.contains("/test_") {
+                    continue;
+                }
+                if let Ok(s) = std::fs::read_to_string(&f) {
+                    census_file(&s, &mut c);
+                }
+            }
+        }
+        per.insert(name.to_string(), json!({"files": c.files, "binary_plus_minus_times_shl": c.binary_checked, "unary_minus": c.unary_neg, "abs_calls": c.abs_calls, "explicit_wrapping_saturating_checked_calls": c.explicit, "lines_with_float_arith_skipped": c.float_lines_skipped}));
+        tot.files += c.files;
+        tot.binary_checked += c.binary_checked;
+        tot.unary_neg += c.unary_neg;
+        tot.abs_calls += c.abs_calls;
+        tot.explicit += c.explicit;
+        tot.float_lines_skipped += c.float_lines_skipped;
+    }
+    // sites translated into coq/C20/Model.v (each chk_/wrap_/sat_ primitive occurrence mirrors one Rust site)
+    const TRANSLATED_UNCHECKED: u64 = 68;
+    const TRANSLATED_EXPLICIT: u64 = 27;
+    let found = tot.binary_checked + tot.unary_neg + tot.abs_calls;
+    json!({
+        "method": "lexical scan of non-test, non-comment code in the anchored files: binary + - * << (incl. compound assignment) with at least one non-literal operand, unary minus on a non-literal, .abs(); lines mentioning float types are counted separately; trait-bound `+`, `->`, deref `*` excluded heuristically. An over-approximation of integer sites (includes usize index arithmetic).",
+        "per_group": per,
+        "unchecked_arith_expressions_found": found,
+        "explicit_wrapping_saturating_checked_calls_found": tot.explicit,
+        "sites_translated_unchecked": TRANSLATED_UNCHECKED,
+        "sites_translated_explicit": TRANSLATED_EXPLICIT,
+        "coverage_of_unchecked_sites_percent": (TRANSLATED_UNCHECKED as f64 * 1000.0 / found.max(1) as f64).round() / 10.0,
+    })
+}
+
 fn main() {
     install_hook();
     let args: Vec<String> = std::env::args().collect();
@@ -856,13 +1958,50 @@ fn main() {
         "From Coq Require Import ZArith List. Import ListNotations. Open Scope Z_scope.\nFrom FV Require Import Lib.Cases C20.Model.",
         "Z * list Z * list Z",
         "check_case",
-        if thorough { 4000 } else { 1800 },
+        if thorough { 4000 } else { 2400 },
     );
     let kernel_traps = correspondence(&mut st, &mut cw, &mut rng, thorough);
-    st.v.insert("kernel_trap_sites_direct_call".into(), serde_json::Value::Array(kernel_traps.values().cloned().collect()));
+    // (b) search
+    let found = search(seed, thorough, &mut st);
+    let mut sites = vec![];
+    let mut other = vec![];
+    let mut reached: std::collections::BTreeSet<String> = Default::default();
+    for (key, f) in &found {
+        reached.insert(f.trap.loc.clone());
+        let input = match &f.bc {
+            Some(c) => reduce_bc(c, key).describe(),
+            None => f.input.clone(),
+        };
+        let rec = json!({"key": key, "site": f.trap.loc, "message": f.trap.msg, "class": format!("{:?}", f.kind), "minimal_input": input});
+        match f.kind {
+            Kind::Overflow | Kind::Assert => {
+                st.oracle_failure(json!({"key": key, "what": format!("strict-profile trap reachable from font data: {} at {}", f.trap.msg, f.trap.loc), "site": f.trap.loc, "message": f.trap.msg, "input": input}));
+                sites.push(rec);
+            }
+            Kind::Other => other.push(rec),
+        }
+    }
+    st.v.insert("trap_sites_reached_from_font_data".into(), sites.clone().into());
+    st.v.insert("trap_sites_count".into(), sites.len().into());
+    st.v.insert("other_panics_not_c20".into(), other.into());
+    // kernel-level traps (direct hook calls) and whether the search reached the same site from a font
+    let kt: Vec<serde_json::Value> = kernel_traps
+        .values()
+        .map(|v| {
+            let mut v = v.clone();
+            let site = v["site"].as_str().unwrap_or("").to_string();
+            v["reached_from_font_by_search"] = reached.contains(&site).into();
+            v
+        })
+        .collect();
+    st.v.insert("kernel_trap_sites_direct_call".into(), kt.into());
+    st.v.insert("census".into(), census());
     let shards = cw.finish();
     st.v.insert("shards".into(), shards.into());
     st.v.insert("model_cases".into(), cw.len().into());
-    st.write(&dir, "kernels on boundary-dense grid + random operands");
-    println!("cases={} shards={} kernel_trap_sites={} oracle_failures={}", cw.len(), shards, kernel_traps.len(), st.oracle_failures.len());
+    st.write(&dir, "correspondence: every modelled kernel on a boundary-dense i32 grid (0, +-2^k+-d, MIN/MAX +-{16,31,32,63,64,272,..}) crossed pairwise/triple-wise plus random operands, SROUND/S45ROUND+ROUND through the real interpreter, synthetic fvar/avar/cmap4/Index1/hmtx/gvar tables; search: generated TrueType programs (systematic one-instruction programs for 96 opcodes x 4 program locations, then random prologue + 1..4 instructions with extreme operands) drawn hinted, and value-extreme byte/field mutations of 40 test fonts x 12 API groups; non-trivial = some operand of magnitude > 1");
+    println!("cases={} shards={} kernel_trap_sites={} c20_trap_sites={} oracle_failures={}", cw.len(), shards, kernel_traps.len(), sites.len(), st.oracle_failures.len());
+    for s in &sites {
+        println!("TRAP {}", s["key"].as_str().unwrap_or(""));
+    }
 }
